@@ -137,6 +137,56 @@ pub fn run(seed: u64, tier: &str, out: &mut dyn FnMut(String)) {
     }
 }
 
+/// C07 (and C03): program text that mentions names ALREADY BOUND in the state it is parsed into - the state a second
+/// program meets after a first one has run. The text interleaves use, quote, define and redefine of those names; a
+/// name in program text is a NAME item until the interpreter encounters it (the lookup happens at run time).
+pub fn run_parsebound(seed: u64, tier: &str, out: &mut dyn FnMut(String)) {
+    let n = if tier == "thorough" { 6000 } else { 600 };
+    for case in 0..n {
+        let mut r = Rng::for_case(seed, "parsebound", case);
+        let mut st = PushState::new();
+        let k = 1 + r.below(3) as usize;
+        let mut bound: Vec<String> = vec![];
+        for _ in 0..k {
+            let nm = gen_name(&mut r);
+            if nm.chars().any(|c| c.is_whitespace() || c == '(' || c == ')') || nm.is_empty() {
+                continue;
+            }
+            let v = match r.below(7) {
+                0 | 1 => Item::int(gen_int(&mut r)),
+                2 => Item::bool(r.chance(1, 2)),
+                3 => Item::float((r.range(-400, 400) as f32) / 4.0),
+                4 => Item::list(vec![Item::int(1), Item::instruction("INTEGER.+".to_string())]),
+                5 => Item::name("other".to_string()),
+                _ => Item::instruction("INTEGER.DUP".to_string()),
+            };
+            st.name_bindings.insert(nm.clone(), v);
+            bound.push(nm);
+        }
+        if bound.is_empty() {
+            continue;
+        }
+        let mut toks: Vec<String> = vec![];
+        for _ in 0..2 + r.below(8) {
+            let t = match r.below(10) {
+                0 | 1 | 2 | 3 => r.pick(&bound).clone(),
+                4 => "NAME.QUOTE".to_string(),
+                5 => format!("{} {}", gen_int(&mut r), *r.pick(&["INTEGER.DEFINE", "INTEGER.DUP"])),
+                6 => "CODE.DEFINITION".to_string(),
+                7 => format!("( NAME.QUOTE {} TRUE BOOLEAN.DEFINE {} )", r.pick(&bound), r.pick(&bound)),
+                8 => "fresh".to_string(),
+                _ => format!("( {} )", r.pick(&bound)),
+            };
+            toks.push(t);
+        }
+        let code = format!("( {} )", toks.join(" "));
+        if r.chance(1, 3) {
+            st.exec_stack.push(Item::int(3));
+        }
+        out(observe(&code, st));
+    }
+}
+
 fn rt_item(r: &mut Rng, depth: u32, names: &[String], floats: bool) -> Item {
     if depth > 0 && r.chance(2, 5) {
         let n = r.below(5);
